@@ -390,6 +390,8 @@ func c17Structure(c *Ctx, r *Report) {
 		var gofn *ssa.Function
 		if mc, ok := goI.Common().Value.(*ssa.MakeClosure); ok {
 			gofn = mc.Fn.(*ssa.Function)
+		} else if sc := goI.Common().StaticCallee(); sc != nil && sc.Blocks != nil {
+			gofn = sc // `go s.serveConn(ctx, c)`: the goroutine body is a method
 		}
 		var dfn *ssa.Function
 		if gofn != nil {
